@@ -113,6 +113,37 @@ def _pairs_on(X, nx, nu, ep):
     return None
 
 
+def _pipeline_routes(case):
+    """a regressor at the end of a pipeline, through fit AND through fit_transform: the pairs reaching the solver are the
+    within-episode consecutive pairs of the pipeline's own lifted data, shifted side = lifted states only"""
+    spec = case['spec'] if case['spec']['k'] == 'pipe' else {'k': 'pipe', 'ss': [case['spec']]}
+    X = st.X_of(case)
+    ep, nu = case['ep'], case['nu']
+    for route in ('fit', 'fit_transform'):
+        kp = pykoop.KoopmanPipeline(
+            lifting_functions=[(f'p{j}', pipes.build(s)) for j, s in enumerate(spec['ss'])] or None, regressor=_Rec())
+        try:
+            getattr(kp, route)(X, n_inputs=nu, episode_feature=ep)
+        except Exception:
+            return None
+        if not hasattr(kp.regressor_, 'seen_'):
+            return None
+        Xt = kp.transform(X)
+        pth = kp.n_states_out_
+        ref_u = np.vstack([Xe[:-1] for _, Xe in st.ref_split(Xt, ep)] or [np.zeros((0, Xt.shape[1]))])
+        ref_s = np.vstack([Xe[1:, :pth] for _, Xe in st.ref_split(Xt, ep)] or [np.zeros((0, pth))])
+        su, ss = kp.regressor_.seen_
+        if su.shape != ref_u.shape or ss.shape != ref_s.shape:
+            return (f'KoopmanPipeline.{route}: the regressor receives matrices of shape {su.shape} / {ss.shape}, the '
+                    f'within-episode pairs of the lifted data have shape {ref_u.shape} / {ref_s.shape} '
+                    f'(shifted side = the {pth} lifted states only)')
+        ref = sorted(map(tuple, np.hstack((ref_u, ref_s)).tolist()))
+        got = sorted(map(tuple, np.hstack((su, ss)).tolist()))
+        if got != ref:
+            return f'KoopmanPipeline.{route}: the pairs reaching the regressor are not the within-episode consecutive pairs of the lifted data'
+    return None
+
+
 def _oracle(case, rng, thorough=False):
     """coef_ of fit(X) == fit(Xu, Xs) == fit(relabelled / reordered X), on well-conditioned float data"""
     nx, nu, ep = case['nx'], case['nu'], case['ep']
@@ -124,6 +155,10 @@ def _oracle(case, rng, thorough=False):
     w0 = _pairs_on(X, nx, nu, ep)
     if w0:
         return w0, {'own_layout': True}
+    if case.get('spec'):
+        w1 = _pipeline_routes(case)
+        if w1:
+            return w1, {'own_layout': True, 'pipeline': True}
     # random linear system so that the regression problem is well posed
     A = rs.uniform(-0.6, 0.6, (nx, nx))
     B = rs.uniform(-1, 1, (nx, nu))
@@ -227,7 +262,12 @@ def run(ctx):
                     lifting_functions=[(f'p{j}', pipes.build(s)) for j, s in enumerate(spec['ss'])] or None,
                     regressor=Recorder())
                 # nested pipelines inside use DataRegressor, only the outer regressor records
-                kp.fit(X, n_inputs=c['nu'], episode_feature=(np.bool_(c['ep']) if i % 4 == 1 else c['ep']))
+                # both public routes that fit the regressor: fit, and fit_transform (fits, then lifts the same data)
+                c['route'] = 'fit_transform' if i % 6 == 3 else 'fit'
+                if c['route'] == 'fit_transform':
+                    kp.fit_transform(X, n_inputs=c['nu'], episode_feature=c['ep'])
+                else:
+                    kp.fit(X, n_inputs=c['nu'], episode_feature=(np.bool_(c['ep']) if i % 4 == 1 else c['ep']))
                 toks, _ = pipes.tokens(spec, kp)
                 body = pipes.mat_tokens([[int(v) for v in r] for r in c['rows']], c['ep'])
                 line = f"regargs {c['nx']} {c['nu']} {toks} {body}"
